@@ -1,4 +1,5 @@
 import SamplyModel.Lemmas.BreakpadRender
+import SamplyModel.Lemmas.BreakpadSort
 /-!
 Helper lemmas for C10, part 5: the creator run over a rendered abstract file yields `BPS.specIndex`.
 -/
@@ -276,24 +277,8 @@ theorem lineOffsets_map (off : Nat) (ls : List SLine) :
 
 /-- offsets are non-decreasing, start at `lo` or later, and every line ends at or before `endOff` -/
 def OffsOk (endOff : Nat) : Nat → List (Nat × SLine) → Prop
-  | lo, [] => lo ≤ endOff
+  | _, [] => True
   | lo, p :: rest => lo ≤ p.1 ∧ p.1 + p.2.bytes.length ≤ endOff ∧ OffsOk endOff p.1 rest
-
-theorem OffsOk.le {endOff lo : Nat} {ols : List (Nat × SLine)} (h : OffsOk endOff lo ols) : lo ≤ endOff := by
-  cases ols with
-  | nil => exact h
-  | cons p rest => have := h.1; have := h.2.1; omega
-
-theorem blockEnd_bounds {endOff lo : Nat} {ols : List (Nat × SLine)} (h : OffsOk endOff lo ols) :
-    lo ≤ blockEnd endOff ols ∧ blockEnd endOff ols ≤ endOff := by
-  induction ols generalizing lo with
-  | nil => exact ⟨h, Nat.le_refl _⟩
-  | cons p rest ih =>
-    obtain ⟨off, l⟩ := p
-    simp only [blockEnd]
-    split
-    · have := h.1; have := h.2.1; simp only at *; constructor <;> omega
-    · have := ih h.2.2; have := h.1; simp only at *; constructor <;> omega
 
 def closeP : Option (Nat × Nat) → Nat → List (Nat × SymEntry)
   | none, _ => []
@@ -322,7 +307,8 @@ theorem finishPending_mk (mi : List Byte) (syms : List (Nat × SymEntry)) (files
 theorem run_spec (endOff : Nat) (hE : endOff < pow32) (ols : List (Nat × SLine))
     (hok : ∀ p ∈ ols, p.2.r.ok) :
     ∀ (lo : Nat) (mi : List Byte) (syms : List (Nat × SymEntry)) (files origins : SVB)
-      (pending : Option (Nat × Nat)), OffsOk endOff lo ols → (∀ a fo, pending = some (a, fo) → fo ≤ lo) →
+      (pending : Option (Nat × Nat)), OffsOk endOff lo ols →
+      (∀ a fo, pending = some (a, fo) → fo ≤ lo ∧ fo ≤ endOff) →
       ∃ st', runLines ⟨mi, true, syms, files, origins, pending⟩ ols = some st' ∧
         finishPending st' endOff = some ⟨infoFold mi ols, true,
           syms ++ closeP pending (blockEnd endOff ols) ++ specSymbols endOff ols,
@@ -331,8 +317,7 @@ theorem run_spec (endOff : Nat) (hE : endOff < pow32) (ols : List (Nat × SLine)
   | nil =>
     intro lo mi syms files origins pending ho hp
     refine ⟨_, rfl, ?_⟩
-    have hle : lo ≤ endOff := ho
-    rw [finishPending_mk _ _ _ _ _ _ hE (fun a fo h => Nat.le_trans (hp a fo h) hle)]
+    rw [finishPending_mk _ _ _ _ _ _ hE (fun a fo h => (hp a fo h).2)]
     simp [infoFold, blockEnd, specSymbols, specFiles, specOrigins]
   | cons p rest ih =>
     intro lo mi syms files origins pending ho hp
@@ -346,7 +331,9 @@ theorem run_spec (endOff : Nat) (hE : endOff < pow32) (ols : List (Nat × SLine)
       apply Nat.mod_eq_of_lt
       have : l.r.content.length ≤ l.bytes.length := by simp [SLine.bytes]
       omega
-    have hpoff : ∀ a fo, pending = some (a, fo) → fo ≤ off := fun a fo h => Nat.le_trans (hp a fo h) h1
+    have hpoff : ∀ a fo, pending = some (a, fo) → fo ≤ off := fun a fo h => Nat.le_trans (hp a fo h).1 h1
+    have hpoff2 : ∀ a fo, pending = some (a, fo) → fo ≤ off ∧ fo ≤ endOff :=
+      fun a fo h => ⟨hpoff a fo h, (hp a fo h).2⟩
     simp only [runLines]
     rw [processLine_rec _ _ _ rfl hrok, hlen]
     have hfp := finishPending_mk mi syms files origins pending off hoffE hpoff
@@ -361,14 +348,14 @@ theorem run_spec (endOff : Nat) (hE : endOff < pow32) (ols : List (Nat × SLine)
       simp [infoFold, blockEnd, specSymbols, specFiles, specOrigins, hr, Rec.isCloser, closeP]
     | file idx name =>
       simp only [Rec.cls, applyClass]
-      obtain ⟨st', hrun, hfin⟩ := ih' off mi syms (files.push ⟨idx, l.r.content.length, off⟩) origins pending h3 hpoff
+      obtain ⟨st', hrun, hfin⟩ := ih' off mi syms (files.push ⟨idx, l.r.content.length, off⟩) origins pending h3 hpoff2
       rw [hr] at hrun hfin
       refine ⟨st', hrun, ?_⟩
       rw [hfin]
       simp [infoFold, blockEnd, specSymbols, specFiles, specOrigins, hr, Rec.isCloser]
     | origin idx name =>
       simp only [Rec.cls, applyClass]
-      obtain ⟨st', hrun, hfin⟩ := ih' off mi syms files (origins.push ⟨idx, l.r.content.length, off⟩) pending h3 hpoff
+      obtain ⟨st', hrun, hfin⟩ := ih' off mi syms files (origins.push ⟨idx, l.r.content.length, off⟩) pending h3 hpoff2
       rw [hr] at hrun hfin
       refine ⟨st', hrun, ?_⟩
       rw [hfin]
@@ -385,19 +372,19 @@ theorem run_spec (endOff : Nat) (hE : endOff < pow32) (ols : List (Nat × SLine)
     | func m addr size psize name =>
       simp only [Rec.cls, applyClass, hfp, Option.map_some]
       obtain ⟨st', hrun, hfin⟩ := ih' off mi (syms ++ closeP pending off) files origins (some (addr, off)) h3
-        (by intro a fo h; cases h; exact Nat.le_refl _)
+        (by intro a fo h; cases h; exact ⟨Nat.le_refl _, by omega⟩)
       refine ⟨st', hrun, ?_⟩
       rw [hfin]
       simp [infoFold, blockEnd, specSymbols, specFiles, specOrigins, hr, Rec.isCloser, closeP]
     | line addr size ln fl =>
       simp only [Rec.cls, applyClass]
-      obtain ⟨st', hrun, hfin⟩ := ih' off mi syms files origins pending h3 hpoff
+      obtain ⟨st', hrun, hfin⟩ := ih' off mi syms files origins pending h3 hpoff2
       refine ⟨st', hrun, ?_⟩
       rw [hfin]
       simp [infoFold, blockEnd, specSymbols, specFiles, specOrigins, hr, Rec.isCloser]
     | inline depth callLine callFile org r0 ranges =>
       simp only [Rec.cls, applyClass]
-      obtain ⟨st', hrun, hfin⟩ := ih' off mi syms files origins pending h3 hpoff
+      obtain ⟨st', hrun, hfin⟩ := ih' off mi syms files origins pending h3 hpoff2
       refine ⟨st', hrun, ?_⟩
       rw [hfin]
       simp [infoFold, blockEnd, specSymbols, specFiles, specOrigins, hr, Rec.isCloser]
@@ -408,5 +395,155 @@ theorem run_spec (endOff : Nat) (hE : endOff < pow32) (ols : List (Nat × SLine)
       refine ⟨st', hrun, ?_⟩
       rw [hfin]
       simp [infoFold, blockEnd, specSymbols, specFiles, specOrigins, hr, Rec.isCloser, closeP]
+
+/-! ### assembling: the index of a rendered well-formed file is `specIndex` -/
+
+theorem specSymbols_keys (endOff off : Nat) (ls : List SLine) :
+    (specSymbols endOff (withOffsets off ls)).map (·.1) = symAddrs ls := by
+  induction ls generalizing off with
+  | nil => rfl
+  | cons l ls ih =>
+    simp only [withOffsets, specSymbols, symAddrs]
+    cases l.r <;> simp [ih]
+
+theorem specFiles_keys (off : Nat) (ls : List SLine) :
+    (specFiles (withOffsets off ls)).map (·.index) = fileIdxs ls := by
+  induction ls generalizing off with
+  | nil => rfl
+  | cons l ls ih =>
+    simp only [withOffsets, specFiles, fileIdxs]
+    cases l.r <;> simp [ih]
+
+theorem specOrigins_keys (off : Nat) (ls : List SLine) :
+    (specOrigins (withOffsets off ls)).map (·.index) = originIdxs ls := by
+  induction ls generalizing off with
+  | nil => rfl
+  | cons l ls ih =>
+    simp only [withOffsets, specOrigins, originIdxs]
+    cases l.r <;> simp [ih]
+
+theorem infoFold_eq (mi : List Byte) (off : Nat) (ls : List SLine) :
+    infoFold mi (withOffsets off ls) = ls.foldl infoStep mi := by
+  induction ls generalizing mi off with
+  | nil => rfl
+  | cons l ls ih =>
+    simp only [withOffsets, infoFold, List.foldl_cons, infoStep]
+    cases l.r <;> simp [ih]
+
+theorem content_ne_nil (r : Rec) : r.content ≠ [] := by
+  cases r <;> simp [Rec.content, tINFO_, tFILE, tINLINE_ORIGIN, tPUBLIC, tFUNC, tINLINE, tSTACK_, toHex_ne_nil]
+
+/-- the lines end where the text ends -/
+theorem offsOk_withOffsets (endOff off : Nat) (ls : List SLine)
+    (h : off + ((ls.map fun l => l.bytes.length + 1).sum) ≤ endOff + 1) :
+    OffsOk endOff off (withOffsets off ls) := by
+  induction ls generalizing off with
+  | nil => trivial
+  | cons l ls ih =>
+    simp only [List.map_cons, List.sum_cons] at h
+    simp only [withOffsets, OffsOk]
+    refine ⟨Nat.le_refl _, by omega, ?_⟩
+    have := ih (off + l.bytes.length + 1) (by omega)
+    cases hw : withOffsets (off + l.bytes.length + 1) ls with
+    | nil => trivial
+    | cons p rest =>
+      rw [hw] at this
+      have t1 := this.1
+      exact ⟨by omega, this.2.1, this.2.2⟩
+
+theorem joinNl_length (first : List Byte) (rest : List (List Byte)) :
+    (LB.joinNl first rest).length = first.length + (rest.map fun l => l.length + 1).sum := by
+  induction rest generalizing first with
+  | nil => simp [LB.joinNl]
+  | cons l ls ih => simp [LB.joinNl, ih]; omega
+
+theorem preIndex_render (pick : Pick) (s : SymFile) (h : WFIndex s) :
+    preIndex pick [render s] = .ix (specIndex s) := by
+  have hfirstNl : (10 : Byte) ∉ s.moduleLine ++ List.replicate s.moduleCrs 13 := by
+    simp only [List.mem_append, List.mem_replicate, not_or]
+    exact ⟨h.moduleNoNl, by simp⟩
+  have hrestNl : ∀ l ∈ s.lines.map SLine.bytes, (10 : Byte) ∉ l := by
+    intro l hl
+    obtain ⟨sl, hsl, rfl⟩ := List.mem_map.1 hl
+    simp only [SLine.bytes, List.mem_append, List.mem_replicate, not_or]
+    exact ⟨(content_ok _ (h.recs sl hsl)).1, by simp⟩
+  have hmne : s.moduleLine ≠ [] := by
+    intro e
+    have := h.moduleOk
+    rw [e] at this
+    simp [moduleLine, tag, tMODULE] at this
+  have hlast : ((s.moduleLine ++ List.replicate s.moduleCrs 13) :: s.lines.map SLine.bytes).getLastD [] ≠ [] := by
+    rw [List.getLastD_eq_getLast?]
+    cases hl : ((s.moduleLine ++ List.replicate s.moduleCrs 13) :: s.lines.map SLine.bytes).getLast? with
+    | none => simp at hl
+    | some x =>
+      simp only [Option.getD_some]
+      have hx := List.mem_of_getLast? hl
+      rcases List.mem_cons.1 hx with e | e
+      · subst e; simp [hmne]
+      · obtain ⟨sl, _, rfl⟩ := List.mem_map.1 e
+        simp [SLine.bytes, content_ne_nil]
+  unfold render
+  rw [preIndex_lines pick _ _ s.finalNl hfirstNl hrestNl hlast]
+  -- the MODULE line
+  simp only [LB.lineOffsets, processLog]
+  have hstrip : stripCR (s.moduleLine ++ List.replicate s.moduleCrs 13) = s.moduleLine :=
+    stripCR_replicate _ _ h.moduleEnds
+  have hfirst : processLine Inner.init 0 (s.moduleLine ++ List.replicate s.moduleCrs 13)
+      = some ⟨s.moduleLine, true, [], SVB.init, SVB.init, none⟩ := by
+    simp [processLine, Inner.init, hstrip, h.moduleOk]
+  rw [hfirst]
+  simp only [Nat.zero_add]
+  rw [lineOffsets_map, processLog_eq_runLines]
+  -- the records
+  have hsmall := h.small
+  unfold render at hsmall
+  generalize hE : (LB.joinNl (s.moduleLine ++ List.replicate s.moduleCrs 13) (s.lines.map SLine.bytes) ++
+    if s.finalNl = true then [10] else []).length = endOff at hsmall ⊢
+  have hlenE : (s.moduleLine ++ List.replicate s.moduleCrs 13).length + 1
+      + ((s.lines.map fun l => l.bytes.length + 1).sum) ≤ endOff + 1 := by
+    have e1 : (LB.joinNl (s.moduleLine ++ List.replicate s.moduleCrs 13) (s.lines.map SLine.bytes) ++
+        if s.finalNl = true then [10] else []).length
+        = (s.moduleLine ++ List.replicate s.moduleCrs 13).length
+          + ((s.lines.map SLine.bytes).map fun l => l.length + 1).sum
+          + (if s.finalNl = true then [10] else ([] : List Byte)).length := by
+      rw [List.length_append, joinNl_length]
+    have e2 : ((s.lines.map SLine.bytes).map fun l => l.length + 1) = s.lines.map fun l => l.bytes.length + 1 := by
+      rw [List.map_map]; rfl
+    rw [← hE, e1, e2]
+    omega
+  have hoffs := offsOk_withOffsets endOff _ s.lines hlenE
+  have hrecs : ∀ p ∈ withOffsets ((s.moduleLine ++ List.replicate s.moduleCrs 13).length + 1) s.lines, p.2.r.ok := by
+    intro p hp
+    have : ∀ (off : Nat) (ls : List SLine), (∀ l ∈ ls, l.r.ok) → ∀ p ∈ withOffsets off ls, p.2.r.ok := by
+      intro off ls
+      induction ls generalizing off with
+      | nil => intro _ p hp; cases hp
+      | cons l ls ih =>
+        intro hl p hp
+        simp only [withOffsets, List.mem_cons] at hp
+        rcases hp with e | e
+        · subst e; exact hl l (by simp)
+        · exact ih _ (fun x hx => hl x (by simp [hx])) p e
+    exact this _ _ h.recs p hp
+  obtain ⟨st', hrun, hfin⟩ := run_spec endOff hsmall _ hrecs _ s.moduleLine [] SVB.init SVB.init none hoffs
+    (by simp)
+  rw [hrun]
+  simp only [preOf, Inner.pre, hfin, Bool.not_true, Bool.false_eq_true, if_false]
+  -- sorting
+  have hoff0 : (s.moduleLine ++ List.replicate s.moduleCrs 13).length + 1 = firstOff s := by
+    simp [firstOff]
+  rw [hoff0]
+  have hk1 : ((specSymbols endOff (olines s)).map (·.1)).Nodup := by
+    rw [olines, specSymbols_keys]; exact h.symDistinct
+  have hk2 : ((specFiles (olines s)).map (·.index)).Nodup := by
+    rw [olines, specFiles_keys]; exact h.fileDistinct
+  have hk3 : ((specOrigins (olines s)).map (·.index)).Nodup := by
+    rw [olines, specOrigins_keys]; exact h.originDistinct
+  simp only [Inner.toIndex, closeP, List.nil_append, List.append_nil]
+  rw [show withOffsets (firstOff s) s.lines = olines s from rfl]
+  rw [sortDedup_eq_sortBy _ _ _ _ hk1, intoSorted_foldl_push _ _ hk2, intoSorted_foldl_push _ _ hk3]
+  rw [olines, infoFold_eq]
+  simp only [specIndex, specModInfo, render, hE, olines]
 
 end BPS
